@@ -48,17 +48,23 @@ theorem dec_fixed_unsafe (f : Nat) (env : Env) (t : Ty) (s : Nat) (hs : fixedSiz
 
 theorem decN_fixed_unsafe (f : Nat) (env : Env) (t : Ty) (s : Nat) (hs : fixedSize t = some s) :
     ∀ (n : Nat) (buf : List Byte), n * s ≤ buf.length →
+      decN (dec (f+1) env false t) n buf = .fuel ∨
       ∃ vs, decN (dec (f+1) env false t) n buf = .ok (vs, buf.drop (n * s)) ∧ vsizeList vs = n * s
-  | 0, buf, _ => ⟨[], by simp [decN], by simp [vsizeList]⟩
+  | 0, buf, _ => Or.inr ⟨[], by simp [decN], by simp [vsizeList]⟩
   | n+1, buf, h => by
     have h1 : s ≤ buf.length := by rw [Nat.add_mul] at h; omega
     obtain ⟨v, hv, hvs⟩ := dec_fixed_unsafe f env t s hs buf h1
     have h2 : n * s ≤ (buf.drop s).length := by rw [Nat.add_mul] at h; simp [List.length_drop]; omega
-    obtain ⟨vs, hvs', hsz⟩ := decN_fixed_unsafe f env t s hs n (buf.drop s) h2
-    refine ⟨v :: vs, ?_, ?_⟩
-    · simp only [decN, hv, Res.ok_bind, hvs', Res.pure_eq, List.drop_drop]
-      congr 3; rw [Nat.add_mul]; omega
-    · simp [vsizeList, hvs, hsz, Nat.add_mul]; omega
+    simp only [decN, hv, Res.ok_bind]
+    split
+    · exact Or.inl rfl
+    · rcases decN_fixed_unsafe f env t s hs n (buf.drop s) h2 with hf | ⟨vs, hvs', hsz⟩
+      · left; simp [hf]
+      · right
+        refine ⟨v :: vs, ?_, ?_⟩
+        · simp only [hvs', Res.ok_bind, Res.pure_eq, List.drop_drop]
+          congr 3; rw [Nat.add_mul]; omega
+        · simp [vsizeList, hvs, hsz, Nat.add_mul]; omega
 
 theorem decN_adv (d : Dec) (hd : ∀ buf, Adv buf (d buf)) :
     ∀ (n : Nat) (buf : List Byte), AdvList buf 0 (decN d n buf)
@@ -73,16 +79,18 @@ theorem decN_adv (d : Dec) (hd : ∀ buf, Adv buf (d buf)) :
       simp only [Adv] at h1
       have h2 := decN_adv d hd n rest
       simp only [Res.ok_bind]
-      cases hr2 : decN d n rest with
-      | ok q =>
-        obtain ⟨vs, rest'⟩ := q
-        rw [hr2] at h2
-        simp only [AdvList] at h2
-        simp only [Res.ok_bind, Res.pure_eq, AdvList, vsizeList]
-        omega
-      | err => simp [AdvList]
-      | panic => rw [hr2] at h2; simp [AdvList] at h2
-      | fuel => simp [AdvList]
+      split
+      · simp [AdvList]
+      · cases hr2 : decN d n rest with
+        | ok q =>
+          obtain ⟨vs, rest'⟩ := q
+          rw [hr2] at h2
+          simp only [AdvList] at h2
+          simp only [Res.ok_bind, Res.pure_eq, AdvList, vsizeList]
+          omega
+        | err => simp [AdvList]
+        | panic => rw [hr2] at h2; simp [AdvList] at h2
+        | fuel => simp [AdvList]
     | err => simp [AdvList]
     | panic => rw [hr] at h1; simp [Adv] at h1
     | fuel => simp [AdvList]
@@ -339,8 +347,9 @@ theorem dec_adv_all (env : Env) : ∀ (f : Nat),
               | zero => simp [decN, Adv, vsize, vsizeList]; omega
               | succ n => simp [decN, dec, Adv]
             | succ f' =>
-              obtain ⟨vs, hvs, hsz⟩ := decN_fixed_unsafe f' env t s hfs n rest (by omega)
-              simp only [hvs, Res.ok_bind, Res.pure_eq, Adv, vsize, hsz, List.length_drop]; omega
+              rcases decN_fixed_unsafe f' env t s hfs n rest (by omega) with hfu | ⟨vs, hvs, hsz⟩
+              · simp [hfu, Adv]
+              · simp only [hvs, Res.ok_bind, Res.pure_eq, Adv, vsize, hsz, List.length_drop]; omega
       · simp [h, Adv]
     | map k v =>
       simp only [dec]
